@@ -318,7 +318,21 @@ func b2u(b bool) uint64 {
 	return 0
 }
 
-func replayC10(r *fw.Run, raw json.RawMessage) { replayRound(r, raw, "C10") }
+func replayC10(r *fw.Run, raw json.RawMessage) {
+	var v struct {
+		What      string `json:"what"`
+		Transport string `json:"transport"`
+		Frame     int    `json:"frame_bytes"`
+		Calls     int    `json:"calls_each_direction"`
+	}
+	if json.Unmarshal(raw, &v) == nil && v.What == "volume on one connection" && v.Frame > 0 {
+		c10Volume(r, v.Transport, v.Frame, v.Calls)
+		r.Case(1, true)
+		r.Case(2, true)
+		return
+	}
+	replayRound(r, raw, "C10")
+}
 
 func init() {
 	fw.Register(&fw.Engine{
